@@ -22,6 +22,7 @@ const modPath = "seehuhn.de/go/sfnt"
 // World is the resolved program: type-checked syntax, SSA and call graph of
 // the working tree under analysis.
 type World struct {
+	glens map[*ssa.Global]int64
 	Dir    string
 	Pkgs   []*packages.Package // module packages (roots of the load)
 	All    map[string]*packages.Package
